@@ -429,3 +429,57 @@ Theorem c15_executed_machine_is_nstep : forall (V : Type) (vzero vdef : V) conv 
   kstep V vzero vdef conv fixed true s m = nstep V vzero vdef conv s m.
 Proof. exact kstep_is_nstep. Qed.
 Print Assumptions c15_executed_machine_is_nstep.
+
+(* ======================================================================================
+   After the second review (Data/AccessorsModel.v / AccessorsProofs.v, section "More"). *)
+
+(* the four pointer getters answer NULL - the documented failure value - to a SUCCESSFUL call
+   exactly when the allocation behind the pointer is still 0 (AccessorsModel.ptr_null, tied by the
+   raw-pointer token of the correspondence); then the vector has no element: nothing can be read
+   through the pointer *)
+Theorem c15_null_pointer_only_when_empty : forall (V : Type) (vzero vdef : V) d o,
+  Inv V vzero vdef d -> ptr_null V d o = true -> o_ret V (snd (step V vzero vdef fixed d o)) = ROk ->
+  o_pay V (snd (step V vzero vdef fixed d o)) = PVals V [] \/ o_pay V (snd (step V vzero vdef fixed d o)) = PFreqs [].
+Proof. exact null_pointer_only_when_empty. Qed.
+Print Assumptions c15_null_pointer_only_when_empty.
+
+(* fmin / fmax (first / last element) are the lowest / highest frequency of the manual when the
+   vector ascends ... *)
+Theorem c15_fmin_fmax_lowest_highest_when_ascending : forall (V : Type) (vzero vdef : V) (a : arr V) x,
+  ascending V a ->
+  (snd (spec_step V vzero vdef a (OGetFmin V)) = okp V (PFreq x) -> is_lowest V a x) /\
+  (snd (spec_step V vzero vdef a (OGetFmax V)) = okp V (PFreq x) -> is_highest V a x).
+Proof. exact fmin_fmax_lowest_highest_when_ascending. Qed.
+Print Assumptions c15_fmin_fmax_lowest_highest_when_ascending.
+
+(* ... and are not for an unordered vector, which the container accepts: the manual's wording is
+   refuted of the code (observation, proposed manual patch fixes/proposed/DH91) *)
+Theorem c15_fmin_fmax_lowest_highest_refuted_unordered : forall (V : Type) (vzero vdef : V),
+  let d := run V vzero vdef fixed (vd_alloc V vzero vdef) (unordered_history V) in
+  snd (step V vzero vdef fixed d (OGetFmin V)) = okp V (PFreq 3%Z) /\
+  snd (step V vzero vdef fixed d (OGetFmax V)) = okp V (PFreq 2%Z) /\
+  snd (spec_step V vzero vdef (abs V d) (OGetFmin V)) = okp V (PFreq 3%Z) /\
+  snd (spec_step V vzero vdef (abs V d) (OGetFmax V)) = okp V (PFreq 2%Z) /\
+  ~ is_lowest V (abs V d) 3%Z /\ ~ is_highest V (abs V d) 2%Z.
+Proof. exact fmin_fmax_lowest_highest_refuted_unordered. Qed.
+Print Assumptions c15_fmin_fmax_lowest_highest_refuted_unordered.
+
+(* vnadata_add_frequency presents the new row with its initial values *)
+Theorem c15_add_frequency_exposes_initial : forall (V : Type) (vzero vdef : V) d x,
+  Inv V vzero vdef d -> o_ret V (snd (step V vzero vdef fixed d (OAddFreq V x))) = ROk ->
+  let d' := fst (step V vzero vdef fixed d (OAddFreq V x)) in
+  freqs V d' = freqs V d + 1 /\ fv V d' (freqs V d) = x /\
+  (forall j, dat V d' (freqs V d) j = vzero) /\
+  (per_f V d' = true -> forall p, z0vv V d' (freqs V d) p = vdef) /\
+  (rows V d', cols V d', ty V d', per_f V d') = (rows V d, cols V d, ty V d, per_f V d).
+Proof. exact add_frequency_exposes_initial. Qed.
+Print Assumptions c15_add_frequency_exposes_initial.
+
+(* a refused vnadata_init has emptied the object (unlike a refused vnadata_resize) *)
+Theorem c15_init_rejected_is_empty : forall (V : Type) (vzero vdef : V) d tz r c f,
+  Inv V vzero vdef d -> resize_cond tz r c f = None ->
+  let res := step V vzero vdef fixed d (OInit V tz r c f) in
+  snd res = fail V /\
+  (ty V (fst res), rows V (fst res), cols V (fst res), freqs V (fst res), per_f V (fst res)) = (VUNDEF, 0, 0, 0, false).
+Proof. exact init_rejected_is_empty. Qed.
+Print Assumptions c15_init_rejected_is_empty.
